@@ -60,6 +60,29 @@ func runC08(w *World, r *Report) {
 			ok = fromCur && notInBackup
 		}
 		r.Check(ok, "R2", "Restore/removes-files-added-since-backup", rs.Pos(), "a path present in the current snapshot and absent from the backup is removed")
+		// both halves of the restore run on every successful return: no success exit before the
+		// write-back loop and the added-file removal loop have been entered
+		if len(cl) == 1 && len(stores) == 1 {
+			var early []string
+			for _, alt := range ReturnAlts(rs, 0) {
+				if !isNilConst(alt.Val) {
+					continue
+				}
+				// the loop headers of both passes dominate the return
+				for what, c := range map[string]ssa.CallInstruction{"write-back": stores[0], "removal of added files": cl[0]} {
+					var hdr *ssa.BasicBlock
+					for _, h := range loopHeadersOf(rs) {
+						if h.Dominates(c.Block()) && (hdr == nil || hdr.Dominates(h)) {
+							hdr = h
+						}
+					}
+					if hdr == nil || !hdr.Dominates(alt.Ret.Block()) {
+						early = append(early, "success return at "+w.Pos(posOf(alt.Ret))+" is not preceded by the "+what+" pass")
+					}
+				}
+			}
+			r.Check(len(early) == 0, "R2", "Restore/both-passes-on-every-success", rs.Pos(), "Restore reports success only after the write-back pass and the removal pass: %v", early)
+		}
 	}
 	if gd := w.Fn(pkgConfig, "FileSystemBackUp.GetDiff"); gd == nil {
 		r.Undec("R1", "GetDiff", token.NoPos, "function not found")
